@@ -143,6 +143,7 @@ def split_cases(lines):
         if l.startswith("case "):
             cur = l.split()[1]
             out[cur] = []
-        elif cur is not None and l.strip():
+        elif cur is not None and l.strip() and not l.startswith("["):
+            # lines starting with "[" are Display::printText log output of the implementation
             out[cur].append(l)
     return out
